@@ -25,8 +25,8 @@ pub fn def() -> PropDef {
     panic_policy: PanicPolicy::Count,
     rule: "random ASCII trees over {Raw*, Original, Concat, Replace, Cached (not beneath a ReplaceSource), Boxed}, file-name pool with one fixed content per name, all replacement classes; ground truth = byte provenance computed from the spec by the concat/splice models; clauses a-f of DESIGN C04 are evaluated on the independently decoded map(); non-trivial = >= 1 surviving original character, >= 1 raw character and a composite; distinct = spec fingerprint",
     cases: |t| match t {
-      Tier::Quick => 30_000,
-      Tier::Thorough => 500_000,
+      Tier::Quick => 150_000,
+      Tier::Thorough => 2_000_000,
     },
   }
 }
